@@ -10,13 +10,13 @@ Links == {"clean", "loss", "dup", "reorder"}
 
 VARIABLES c, emitted
 Init == /\ emitted = FALSE
-        /\ c \in [stored : BOOLEAN, size : SizeClasses, va : VerSets, vb : VerSets, table : Tables, enr : EnrSizes, link : Links]
-        /\ (c.stored => c.table \in {"few"} /\ c.enr = "min")          \* table shape is irrelevant when the content is held
+        /\ c \in [stored : BOOLEAN, size : SizeClasses, va : VerSets, vb : VerSets, table : Tables, enr : EnrSizes, link : Links, asker : {"any", "closest"}]
+        /\ (c.stored => c.table \in {"few"} /\ c.enr = "min" /\ c.asker = "any")          \* table shape is irrelevant when the content is held
         /\ (~c.stored => c.size = 0 /\ c.link = "clean" /\ c.va = {0, 1} /\ c.vb = {0, 1})
         /\ (c.link # "clean" => c.size \in {1175, 20000} /\ c.va = {0, 1} /\ c.vb = {0, 1})
 Next == /\ ~emitted /\ emitted' = TRUE /\ UNCHANGED c
 Spec == Init /\ [][Next]_<<c, emitted>>
-Emit == emitted => PrintT(<<"CASE", ToJson([stored |-> c.stored, size |-> c.size, va |-> c.va, vb |-> c.vb, table |-> c.table,
+Emit == emitted => PrintT(<<"CASE", ToJson([asker |-> c.asker, stored |-> c.stored, size |-> c.size, va |-> c.va, vb |-> c.vb, table |-> c.table,
                                              enr |-> c.enr, link |-> c.link, kind |-> ReplyKind(c.stored, c.size),
                                              common |-> Common(c.va, c.vb)])>>)
 ===============================================================================
